@@ -990,7 +990,10 @@ static void check_c04(struct st *s)
             case EV_PROBE: {
                 int p = e->a;
                 const char *pname = lab_probes[p].name;
-                if (dead[p]) {
+                if (dead[p] && lab_probes[p].forced && e->b == UPROBE_LOG) {
+                    /* freed by the laboratory with its input still held: the log lines
+                     * of that teardown are the laboratory's doing */
+                } else if (dead[p]) {
                     if (e->b == UPROBE_DEAD) { snprintf(key, sizeof(key), "c04:%s:dead-twice", pname); vh_violation_noabort(key, "pipe %s threw dead twice", pname); }
                     snprintf(key, sizeof(key), "c04:%s:event-after-dead:%s%s%s", pname, uprobe_event_str(e->b) ? uprobe_event_str(e->b) : "LOCAL", e->msg[0] ? ":" : "", e->msg);
                     vh_violation_noabort(key, "pipe %s threw %s after its dead event (%s)", pname, uprobe_event_str(e->b) ? uprobe_event_str(e->b) : "a local event", e->msg);
@@ -1050,6 +1053,7 @@ static void check_c04(struct st *s)
     }
     /* every pipe allocated in the case announced itself and died exactly once */
     for (int p = 0; p < lab_nprobes; p++) {
+        if (lab_probes[p].no_pipe) continue;
         if (!ready[p]) { snprintf(key, sizeof(key), "c04:%s:never-ready", lab_probes[p].name); vh_violation_noabort(key, "pipe %s never threw ready", lab_probes[p].name); }
         if (!dead[p]) { snprintf(key, sizeof(key), "c04:%s:never-dead", lab_probes[p].name); vh_violation_noabort(key, "pipe %s was released but never threw dead", lab_probes[p].name); }
     }
@@ -1911,9 +1915,17 @@ static void subpipe_case(struct vh_rng *r)
     VH_COUNT("subpipe.cases");
 }
 
+#include "lifecycle.inc.c"
+
 static void run_case(struct vh_rng *r)
 {
     case_hash = 0;
+    if ((mode == MODE_C01 || mode == MODE_C04) && (lc_only >= 0 || (only_pipe < 0 && vh_chance(r, 1, 8)))) {
+        lifecycle_case(r);
+        if (S.inputs >= 1) vh_nontrivial(case_hash);
+        if (vh_want_sample()) vh_sample("%s", vh_trace);
+        return;
+    }
     if ((mode == MODE_C01 || mode == MODE_C04 || mode == MODE_C05) && only_pipe < 0 && vh_chance(r, 1, 12)) {
         subpipe_case(r);
         if (S.inputs >= 3) vh_nontrivial(case_hash);
@@ -1965,6 +1977,8 @@ static void init(void)
     mode = !strcmp(m, "c04") ? MODE_C04 : !strcmp(m, "c05") ? MODE_C05 : !strcmp(m, "c20") ? MODE_C20 : !strcmp(m, "c12") ? MODE_C12 : !strcmp(m, "c14") ? MODE_C14 : MODE_C01;
     const char *p = vh_arg("pipe", NULL);
     if (p) for (int i = 0; i < NCAT; i++) if (!strcmp(catalogue[i].name, p)) only_pipe = i;
+    const char *lp = vh_arg("lc-pipe", NULL);
+    if (lp) for (int i = 0; i < LC_NCAT; i++) if (!strcmp(lc_cat[i].name, lp)) lc_only = i;
 }
 
 static const struct vh_lab lab = { "pipelab", init, run_case, NULL };
